@@ -56,6 +56,24 @@ def rand_arr(nrng, shape, dt):
         a = (nrng.normal(0, 1, shape) * 10.0 ** nrng.integers(-2, 5)).astype(dt)
     if shape == ():
         return a.item() if nrng.random() < 0.7 else a[()]
+    return relayout(nrng, a)
+
+
+def relayout(nrng, a):
+    """the same values in another memory layout (strides are not part of a coordinate's value)."""
+    kind = ['C', 'C', 'F', 'T', 'neg', 'strided', 'readonly'][int(nrng.integers(7))]
+    if kind == 'F' and a.ndim >= 2:
+        return np.asfortranarray(a)
+    if kind == 'T' and a.ndim >= 2:
+        return np.ascontiguousarray(a.T).T              # a transposed view
+    if kind == 'neg' and a.ndim >= 1:
+        return np.ascontiguousarray(a[::-1])[::-1]      # negative stride along the first axis
+    if kind == 'strided' and a.ndim >= 1:
+        return np.repeat(a, 2, axis=-1)[..., ::2]       # every other element of a wider buffer
+    if kind == 'readonly':
+        b = a.copy()
+        b.setflags(write=False)
+        return b
     return a
 
 
